@@ -31,23 +31,23 @@ CLAIMED = {
  "C06": dict(engine="F+V", ref="5/C06",
    technique="Kani full-domain harnesses on the two early-exit conditions of visit_dir (extracted each run) + Verus contract on the real parse_limit",
    text="Both LIMIT early-exit conditions (directory loop, archive-member loop) are proved to be exactly "
-        "!buffered && limit > 0 && found >= limit for all inputs: never taken for ordered/aggregated output or limit 0.",
-   note="Trusted: found accounting, TopN (BTreeMap: out of reach), is_buffered definition."),
+        "!buffered && limit > 0 && found >= limit for all inputs: never taken for ordered/aggregated output or limit 0. The real parse_limit: absent LIMIT = 0 = unlimited, `limit N` = the u32 N denotes or an error (Verus). An entry is counted in `found` exactly once iff there is no WHERE or its WHERE holds (prologue of check_file, all inputs); the assembled Query carries the parsed limit, 0 staying unlimited except for a constant-only select list (Parser::parse tail, all outcomes).",
+   note="Trusted: TopN (BTreeMap: out of reach) - so `order by .. limit N` keeping the first N keys is NOT verified -, is_buffered definition."),
  "C07": dict(engine="V+F", ref="5/C07",
-   technique="Verus contract + loop invariant on the real get_buffer_sum (unbounded rows); Kani harness on the AVG division extracted from get_mean (bounded operand domain)",
+   technique="Verus contracts on the real get_buffer_sum (loop invariant, unbounded rows) and Expr::has_aggregate_function (recursive spec, any depth / width); Kani on the AVG division, on get_variance / get_mean / get_buffer_sum verbatim on a shim row world (powi stubbed), on the divisor fragments, on the prologue and column loops of check_file and on the ungrouped aggregate output block (string-free shim worlds)",
    text="SUM: the real get_buffer_sum, extracted verbatim, is proved to return the mathematical sum over any number of buffered rows of the "
         "number the key column denotes (0 when absent or unparsable), without overflow when the sum fits usize. AVG: the division in "
-        "get_mean is the real quotient sum/count (bounded domain sum < 256, count <= 16; labelled bounded). VAR / STDDEV: get_variance, get_mean, get_buffer_sum (whole bodies verbatim on a shim row world, powi(2) stubbed by x*x) give the textbook population / sample variance on witness columns incl. a non-integer mean and large values with a small spread (bounded); the divisor handed to get_variance is n for _POP and n-1 for _SAMP for every row count (complete).",
+        "get_mean is the real quotient sum/count (bounded domain sum < 256, count <= 16; labelled bounded). VAR / STDDEV: get_variance, get_mean, get_buffer_sum (whole bodies verbatim on a shim row world, powi(2) stubbed by x*x) give the textbook population / sample variance on witness columns incl. a non-integer mean and large values with a small spread (bounded); the divisor handed to get_variance is n for _POP and n-1 for _SAMP for every row count (complete). A query is an aggregate query iff an aggregate function occurs anywhere in a column expression (Verus) and the aggregate functions are exactly the documented nine (Kani, whole enum); WHERE is applied before an entry is counted or buffered; column and grouping-key values reach the per-entry map the aggregates read; an ungrouped aggregate query prints exactly one row holding every column in order.",
    note="Assumed: String keys obey vstd's hash-table key model; str::parse::<usize> is total; powi(2) = x*x. Not covered: MIN/MAX/COUNT arms, sqrt of STDDEV, buffering."),
  "C10": dict(engine="V+F", ref="5/C10",
    technique="Verus contracts on 19 real parser methods and on the real Lexer::next_lexem / Lexer::new: panic freedom, cursor frame, Ok => Some, and TERMINATION (decreases clauses), modular and unbounded; Kani harnesses on the exit-status mapping and the ORDER BY arms",
-   text="19 real methods of impl Parser (incl. parse_fields and parse_root_options), extracted verbatim on every run, are proved free of unwrap-on-None/Err, out-of-range indexing and usize underflow AND terminating (measure: tokens left, then recursion level; every loop iteration consumes a token) for every token vector, each against its callees' contracts (cursor never moves backwards, token vector unchanged, Ok implies Some and progress). error_count -> exit status is proved to be 0 iff no error else 1 for all i32, and the parse-error arm to return 2. The real Lexer::next_lexem, extracted verbatim, is proved panic-free (unwraps, usize / isize cursor arithmetic) and terminating for every argument vector, and every token it returns consumes input.",
+   text="19 real methods of impl Parser (incl. parse_fields and parse_root_options), extracted verbatim on every run, are proved free of unwrap-on-None/Err, out-of-range indexing and usize underflow AND terminating (measure: tokens left, then recursion level; every loop iteration consumes a token) for every token vector, each against its callees' contracts (cursor never moves backwards, token vector unchanged, Ok implies Some and progress). error_count -> exit status is proved to be 0 iff no error else 1 for all i32, and the parse-error arm to return 2. The real Lexer::next_lexem, extracted verbatim, is proved panic-free (unwraps, usize / isize cursor arithmetic) and terminating for every argument vector, and every token it returns consumes input. The tail of Parser::parse (verbatim on a scripted shim Parser, all outcomes): an error in any clause or a left-over token gives Err and no Query; parse_output_format: `into W` is the format W denotes or an error (Verus); a date that is not in the calendar is an error, never a panic (calendar tail of parse_datetime on a shim calendar).",
    note="Not covered: parse_roots, Parser::parse, looks_like_date / looks_like_expression (external stubs), evaluator-side literal errors (regex, dates), termination of the search. Assumption A1: cursor < usize::MAX; a String has fewer than isize::MAX characters."),
  "C13": dict(engine="F", ref="5/C13",
    technique="Kani full-domain harnesses on the DateTime arm of conforms (verbatim, shim operands with sub-second part) and on the time-of-day block of parse_datetime extracted each run",
    text="For all i64 entry times and all intervals a <= b the date arm is proved to implement = / != / < / > / <= / >= exactly as the "
-        "statement defines them (whole seconds, whatever the sub-second part of the entry time), exactly one of <, =, > holds, and a literal with day / hour / minute / second precision denotes start padded with 0 and finish padded with 23:59:59.",
-   note="Trusted: parse_datetime (regex + chrono) produces the interval; start <= finish assumed."),
+        "statement defines them (whole seconds, whatever the sub-second part of the entry time), exactly one of <, =, > holds, and a literal with day / hour / minute / second precision denotes start padded with 0 and finish padded with 23:59:59; start and finish lie on the calendar day written (calendar tail of parse_datetime on a shim calendar, all y/m/d); an unquoted word is kept together as a date iff it starts with a year 1970..2999 optionally followed by a month 01..12 (looks_like_date on shim captures, all values).",
+   note="Trusted: the regex captures and chrono; start <= finish assumed."),
  "C15": dict(engine="V+F+K", ref="5/C15",
    technique="Verus one-step tree assertions in the real parse_mul_div / parse_add_sub; Kani on the verbatim Display::fmt of Expr (shim Formatter), get_column_expr_value (shim world), the calc table and Variant literal coercions; bounded witnesses",
    text="Unbounded (Verus): * / % and + - chains build left-associative nodes carrying the operator just read. Bounded (Kani witnesses): the cache key text differs for expressions that differ in operator, brackets, later arguments or sign; a leading minus applies to columns, functions and literals; negative and fractional right-hand values are compared as numbers; operator dispatch of + - * / and totality of / and %.",
@@ -56,9 +56,8 @@ CLAIMED = {
  "C05": dict(engine="V+F+K", ref="5/C05",
    technique="Kani on the verbatim bodies of Criteria::cmp / cmp_at (shim receiver types), on the positional / DESC arms of parse_order_by and on is_numeric_field over the whole Field enum; Verus contract on the real parse_order_by",
    text="Criteria::cmp is proved to be the lexicographic order over <= 3 keys and cmp_at to dispatch numeric / date / string keys and to reverse for desc, for all per-key outcomes; every documented integer column is proved numeric, date columns chronological, text columns string-ordered over the whole Field enum; a positional key k selects column k or is rejected. On the real parse_order_by: key list and direction list have equal length on every successful parse, positional keys are "
-        "proved in range before indexing and `desc` without a preceding key is rejected (no underflow), for every token vector.",
-   note="Only the ORDER BY clause parser so far. Not covered: that buffered rows come out in Criteria order (TopN/BTreeMap out of reach), "
-        "numeric/date key comparison."),
+        "proved in range before indexing and `desc` without a preceding key is rejected (no underflow), for every token vector. Verus, key expressions of any depth: a key is compared numerically iff a numeric column or function occurs in it on either side of an operator. Per-key comparison: two sizes exactly (below 2^53), negative / fractional expression values as real numbers; sort key i of a buffered row is the value of ORDER BY expression i (check_file loop on a shim world).",
+   note="Not covered: that buffered rows come out in Criteria order and form a permutation (TopN/BTreeMap out of reach), date key comparison (chrono)."),
 
  "C12": dict(engine="F+K", ref="5/C12",
    technique="Kani harnesses on the glob and LIKE escape tables (alternation literal + arm table) extracted from glob.rs each run, exhaustive over printable ASCII; the whole String arm of conforms verbatim on a shim world with an oracle Regex (bounded witnesses)",
@@ -71,7 +70,7 @@ CLAIMED = {
    text="Every documented unit (k kib kb m mib mb g gib gb t tib tb b) is proved to have a rung that is reached first (no shadowing) and strips "
         "exactly its own length; each rung's multiplier is proved equal to the documented one for all integers n < 2^16 (bounded; "
         "f64 multiplication).",
-   note="Multiplier obligations are bounded (n < 65536). Trusted: lower-casing, slicing, str::parse. Not covered: fractional literals, format_filesize."),
+   note="Multiplier obligations are bounded (n < 65536; thorough tier n < 2^32 resp. 2^20). The real whole parse_filesize is run on 33 witness literals; the option table and the unit-text tail of format_filesize on the documented specifiers / 8 renderings. Trusted: lower-casing, slicing, str::parse, humansize. Not covered: fractional values in general."),
 
  "C09": dict(engine="K+F", ref="5/C09",
    technique="Kani harnesses on escape_html (real function), on the format templates of the HTML and flat formatters (format! replaced by concatenation), and on the verbatim bodies of write_row and the ordered-output loop hosted on shim types; bounded values",
@@ -87,12 +86,12 @@ CLAIMED = {
         "spelling (finite tables, enumerated completely); the lexer's keyword table is proved to classify every documented operator word, "
         "arithmetic word and clause keyword, in three casings; the BETWEEN guard of parse_cond is case-insensitive. Function and output-format names likewise. "
         "Verus, for every token vector: an option list of documented root options (long names and aliases, any letter case) yields exactly the documented RootOptions; `()` after an argument-less function is optional; "
-        "round and curly brackets are closed by their own kind and return the inner expression unchanged; after a token the lexer's bracket / operator context flags are the same for both bracket styles.",
-   note="Not covered: whitespace-split invariance as a relation between two lexer runs, optional `select` / commas, parse_roots. Seen and not repaired: a root passed as its own shell word is taken whole, so `from /a,/b` split at whitespace differs from the one-argument form (by design of the lexer, see DESIGN.md 8)."),
+        "round and curly brackets are closed by their own kind and return the inner expression unchanged; after a token the lexer's bracket / operator context flags are the same for both bracket styles; commas and the word `select` are skipped by parse_fields without effect. Bounded (token sequences): the real parse_roots gives every root exactly the options written after it, ends the list at GROUP BY in any letter case, and lets rx / regexp open an option list.",
+   note="Not covered: whitespace-split invariance as a relation between two lexer runs, home-directory expansion in parse_roots. Seen and not repaired: a root passed as its own shell word is taken whole, so `from /a,/b` split at whitespace differs from the one-argument form (by design of the lexer, see DESIGN.md 8)."),
 
  "C16": dict(engine="F", ref="5/C16",
    technique="Kani on 16 arms of function::get_value and on the body of get_function_value copied verbatim against shim types, concrete witness arguments (bounded)",
-   text="SUBSTR / LENGTH / COALESCE / CONCAT / CONCAT_WS / REPLACE / TRIM / LTRIM / RTRIM / LOWER / UPPER / INITCAP / ABS / LEAST / GREATEST / SQRT arms, extracted verbatim each run, are executed by CBMC on about 50 concrete witnesses covering 1-based and negative positions, optional length, character (not byte) length, non-ASCII letters and ill-typed arguments (empty value, no panic); F(G(x), a, b) applies F to the values of its arguments in order; an empty string argument reaches the parser. Bounded stand-in: labelled as such.",
+   text="SUBSTR / LENGTH / COALESCE / CONCAT / CONCAT_WS / REPLACE / TRIM / LTRIM / RTRIM / LOWER / UPPER / INITCAP / ABS / LEAST / GREATEST / SQRT arms, extracted verbatim each run, are executed by CBMC on about 50 concrete witnesses covering 1-based and negative positions, optional length, character (not byte) length, non-ASCII letters and ill-typed arguments (empty value, no panic); F(G(x), a, b) applies F to the values of its arguments in order; YEAR / MONTH / DAY / DOW arms for every date on a shim calendar value (DOW 1 = Sunday .. 7 = Saturday; complete); an empty string argument reaches the parser. Otherwise a bounded stand-in: labelled as such.",
    note="Concrete witnesses only. Not covered: base64 (Kani ICE on the rbase64 crate), BIN/HEX/OCT (format!), POWER/LOG/LN/EXP (unmodelled float intrinsics), date functions (chrono)."),
 }
 PENDING = "no contract-based check built yet in this revision (planned: DESIGN.md section 5)"
